@@ -390,19 +390,49 @@ func (e *emitter) v(v *val) string {
 	return fmt.Sprintf("a%d", len(e.atoms)-1)
 }
 
+// keyVal: the Go-side value of a record key that is not a plain symbol: "$name" = string key, "#I5" int key,
+// "#C97" char key, "#A" the array key [1 2]
+func keyVal(k string) *val {
+	switch {
+	case strings.HasPrefix(k, "$"):
+		return &val{k: 'S', s: k[1:]}
+	case strings.HasPrefix(k, "#I"):
+		n, _ := strconv.ParseInt(k[2:], 10, 64)
+		return &val{k: 'I', i: n}
+	case strings.HasPrefix(k, "#C"):
+		n, _ := strconv.ParseInt(k[2:], 10, 64)
+		return &val{k: 'C', i: n}
+	}
+	return &val{k: 'A', elems: []*val{{k: 'I', i: 1}, {k: 'I', i: 2}}}
+}
+
+func plainKey(k string) bool { return !strings.HasPrefix(k, "#") && !strings.HasPrefix(k, "$") }
+
+// defLines: (def rN (tn k:v ...)) followed by (hset rN key v) for the entries whose key is not a symbol
+func (e *emitter) defLines(n *rnode) {
+	var b strings.Builder
+	fmt.Fprintf(&b, "(def %s%d (%s", e.prefix, n.id, n.tn)
+	for i, k := range n.keys {
+		if plainKey(k) {
+			b.WriteString(" " + k + ":" + e.v(n.vals[i]))
+		}
+	}
+	b.WriteString("))")
+	e.lines = append(e.lines, b.String())
+	for i, k := range n.keys {
+		if !plainKey(k) {
+			e.lines = append(e.lines, fmt.Sprintf("(hset %s%d %s %s)", e.prefix, n.id, e.v(keyVal(k)), e.v(n.vals[i])))
+		}
+	}
+}
+
 // emit returns the script lines defining every record (children first) and the atoms to bind.
 func emit(root *rnode, prefix string) *emitter {
 	e := &emitter{prefix: prefix}
 	var nodes []*rnode
 	collect(root, map[int]bool{}, &nodes)
 	for _, n := range nodes {
-		var b strings.Builder
-		fmt.Fprintf(&b, "(def %s%d (%s", prefix, n.id, n.tn)
-		for i, k := range n.keys {
-			b.WriteString(" " + k + ":" + e.v(n.vals[i]))
-		}
-		b.WriteString("))")
-		e.lines = append(e.lines, b.String())
+		e.defLines(n)
 	}
 	return e
 }
